@@ -12,8 +12,22 @@ namespace Driver
 def u (s : String) : Str := unescape s.toList
 
 /-- user constructors the harness registers: tag ↦ (increment, invertible) -/
+def probeGamut : List OpParameter :=
+  [ .flag (S "inv"), .flag (S "flag"), .natural (S "natural") (some 7), .integer (S "integer") (some (-7)),
+    .real (S "real") (some (.fin false 125 (-2))), .series (S "series") (some (S "1,2,3")),
+    .text (S "text") (some (S "deftext")), .texts (S "names") (some (S "foo, bar")) ]
+
+def probeReqGamut : List OpParameter :=
+  [ .natural (S "req_natural") none, .integer (S "req_integer") none, .real (S "req_real") none,
+    .series (S "req_series") none, .text (S "req_text") none, .texts (S "req_names") none ]
+
 def userCtor (ce : Ops.CtorEnv) (tag : String) : Option (Ctor Float) :=
-  if tag == "u:add2" then some (Ops.plain ce "u:add2" true Ops.addoneGamut)
+  if tag == "u:probe" then some (Ops.plain ce "u:add2" true probeGamut)
+  else if tag == "u:probereq" then some (fun raw =>
+    let given := splitIntoParameters raw.definition
+    let gamut := probeReqGamut.filter fun p => given.contains p.key || p.key == S "req_real"
+    Ops.plain ce "u:add2" true gamut raw)
+  else if tag == "u:add2" then some (Ops.plain ce "u:add2" true Ops.addoneGamut)
   else if tag == "u:oneway3" then some (Ops.plain ce "u:oneway3" false Ops.addoneGamut)
   else none
 
